@@ -1470,7 +1470,10 @@ def py_binop(op, a, b):
         x, y = a[1], b[1]
         if op in ("/", "%") and y == 0:
             return "ERR " + ("DivisionError" if op == "/" else "ModulationError")
-        return ("I", {"+": x + y, "-": x - y, "*": x * y, "/": trunc_div(x, y) if y else 0, "%": x - y * trunc_div(x, y) if y else 0}[op])
+        r = {"+": x + y, "-": x - y, "*": x * y, "/": trunc_div(x, y) if y else 0, "%": x - y * trunc_div(x, y) if y else 0}[op]
+        if not G.I64_MIN <= r <= G.I64_MAX:
+            return "ERR " + {"+": "AdditionError", "-": "SubtractionError", "*": "MultiplicationError", "/": "DivisionError", "%": "ModulationError"}[op]
+        return ("I", r)
     x, y = to_f(a), to_f(b)
     if op == "/":
         r = ieee_div(x, y)
@@ -1683,6 +1686,8 @@ def c09_cases(names_builtin, names_other, rng, full):
                             for src, arg in forms:
                                 ops.append("ev srv " + hexs(src))
                             ops.append("ev srv " + hexs(n))  # the bare name is a variable
+                            if kind in ("E", "EB"):
+                                ops += ["off 0", "off 1"]   # fixed policies: one of the two is refused, nothing changes
                             ops.append("dump")
                             cases.append((G.script(kind, ops), {"kind": "resolution", "name": n, "ctx": kind, "disabled": disabled, "user": has_user,
                                                               "var": var, "is_builtin": is_b, "forms": forms, "nsetup": len(setup), "post": post}))
@@ -2186,6 +2191,13 @@ def c01_gen(tier, rng):
             src = rng.choice(G.char_soup(rng, 1, 16))
         else:
             src = "%s(%s)" % (rng.choice(L.DOCUMENTED_BUILTINS), rng.choice(["a", "b", "c", "y", "(a, b)", "(c, 1)", "()", "1e300", "\"ä\\\\\"", "(y, y)", "-0.0", "0.1 + 0.2"]))
+        cases.append(("SHOW\t" + hexs(src), {"kind": "display"}))
+    for first in "&|":
+        for second in ["", "+", "-", "*", "/", "%", "^", "=", "!", ">", "<", "&", "|", "(", ")", ",", ";", " ", "x", "1", "1.5", "true", '"s"', "==", ">="]:
+            cases.append(("SHOW\t" + hexs("1 " + first + second + " 2"), {"kind": "display"}))
+            cases.append(("SHOW\t" + hexs(first + second), {"kind": "display"}))
+    for src in ["min()", "max(())", "1 + 2 )", "len(1)", "str::substring(\"a\", 1, 2, 3)", "str::substring(\"a\")", "if(1)", "contains(1, 2)", "(1, 2) + 3", "\"a\" + 1",
+                "\"a\\x\"", "\"a", "a = 1; a = 2.5", "a = (1,2); a = ()", "1 /* x", "math::abs(-9223372036854775807 - 1)", "-(-9223372036854775807 - 1)", "1 % 0", "9223372036854775807 * 2"]:
         cases.append(("SHOW\t" + hexs(src), {"kind": "display"}))
     # context histories (set / assign / clear / clone / toggle / call) and effectful programs
     for _ in range(n // 5):
